@@ -38,6 +38,10 @@ def pick_map(rng, kinds=('plain', 'wide', 'rec', 'packed'), h=0):
             st['sentinel'] = None
         elif dt in FLT_DT:
             st['sentinel'] = None if r < 0.5 else rng.choice([0.0, -1.0, -9999.0, 0.5])
+            if dt == 'f4' and rng.random() < 0.25:
+                # a sentinel that float32 cannot represent exactly, handed in as a NumPy double
+                st['sentinel'] = -9999.9
+                st['sentinel_np64'] = True
         else:
             lo, hi = INT_RANGE[dt]
             st['sentinel'] = None if r < 0.4 else rng.choice([0, 0, lo, hi, max(lo, -1), 5])
